@@ -4,7 +4,7 @@ TITLE = 'Write-once: stored content is never rewritten, only links and head tabl
 LEVEL_TEXT = ('bounded symbolic verification of the real file-touching writer primitives (raw.c, core.c, track.c, writer.c, buffer.c) over an in-memory backend: '
               'from a pre-state built by the real open/definition code, K symbolic operations; every in-place backend write and every changed byte is classified '
               'against the chunk map')
-TRUSTED = ['cbmc 6.11', 'membk.c (write log)', 'crcfun.c', 'chunk map decoder and classification in harness/c14_writeonce.c', 'wr_ts.c / wr_fsr.c not linked (their file effects go through the primitives exercised)']
+TRUSTED = ['cbmc 6.11', 'membk.c (write log)', 'crcstub.c (content-independent checksum: CRC values are not the subject here)', 'typed_calloc.h', 'chunk map decoder and classification in harness/c14_writeonce.c', 'wr_ts.c / wr_fsr.c not linked (their file effects go through the primitives exercised)']
 OUTSIDE = ['sequences longer than K operations from the initial state (no inductive invariant over arbitrary list tails was built)', 'the file header rewrite at close',
            'payloads longer than 24 bytes']
 EXPLANATION = ('The harness opens a file with the real raw layer, writes the initial user-data chunk, source 0 and one FSR signal definition with its three track DEF/HEAD chunks, '
@@ -16,11 +16,20 @@ HOOKS = ['JLS_VERIF_SIGNAL_COUNT=2', 'JLS_VERIF_SOURCE_COUNT=3', 'JLS_VERIF_BUF_
          'MEMBK_SIZE=1280', 'MEMBK_LOG=96']
 
 
+OPS = {0: 'core_wr_data', 1: 'core_wr_index', 2: 'core_wr_summary', 3: 'wr_annotation', 4: 'wr_utc', 5: 'wr_user_data', 6: 'wr_source_def', 7: 'annotation_on_undefined_signal'}
+
+
 def obligations(tier):
     o = []
-    k = 2 if tier == 'quick' else 3
-    o.append(Obl('O1_writeonce_K%d' % k, 'c14_writeonce.c', units=['raw.c', 'core.c', 'track.c', 'writer.c', 'buffer.c'], stubs=['log_stub.c', 'membk.c', 'crcfun.c'],
-                 defines=HOOKS + ['KOPS=%d' % k], unwind=100, unwind_text=[('jls_crc32c', r'i < length', 160)], timeout=1500 if tier == 'quick' else 3000, backend=PORTFOLIO, mem_gb=30, objbits=10,
-                 desc='%d symbolic writer operations after open + definitions: only header link/crc rewrites and 0->offset head-table updates below the old end of file' % k,
-                 bound='%d operations, payload <= 24 bytes, one FSR signal, sources 0..2' % k))
+    pairs = [(3, 3), (4, 4), (5, 5), (6, 6), (0, 0), (1, 1), (2, 1), (5, 3), (7, 0)]
+    if tier == 'thorough':
+        pairs += [(a, b) for a in range(8) for b in range(8) if (a, b) not in pairs and a != b][:24]
+    for pr in pairs + [(5, 5, 'null'), (5, 3, 'null')]:
+        a, b = pr[0], pr[1]
+        isnull = len(pr) == 3
+        o.append(Obl('O1_writeonce_%s%s_then_%s' % (OPS[a], '_NULLpayload' if isnull else '', OPS[b]), 'c14_writeonce.c', units=['raw.c', 'core.c', 'track.c', 'writer.c', 'buffer.c'],
+                     stubs=['log_stub.c', 'membk.c', 'crcstub.c'], defines=HOOKS + ['KOPS=2', 'OP1=%d' % a, 'OP2=%d' % b, 'PLEN_FIXED=5'] + (['USERDATA_NULL=1'] if isnull else []), unwind=100, typed_calloc=True, flags=['--max-field-sensitivity-array-size', '2048'],
+                     timeout=800, backend=PORTFOLIO, mem_gb=20, objbits=10,
+                     desc='after open + definitions: %s then %s (symbolic arguments/payloads): only header link/crc rewrites and 0->offset head-table updates below the old end of file' % (OPS[a], OPS[b]),
+                     bound='2 operations (fixed kinds per instance), payload length fixed (5 data bytes, symbolic content), one FSR signal, sources 0..2'))
     return o
